@@ -21,7 +21,7 @@ def oracle(d):
 
 
 def run(ctx):
-    return ec.generic(ctx, 'C05', OPTS, n_quick=(16, 40), n_thorough=(64, 200), with_values=True, with_parse=False, oracle=oracle)
+    return ec.generic(ctx, 'C05', OPTS, n_quick=(32, 60), n_thorough=(96, 300), with_values=True, with_parse=False, oracle=oracle)
 
 
 def replay(ctx, payload):
